@@ -80,6 +80,51 @@ func (fi *FuncInfo) guardsUpTo(n ast.Node, top ast.Node) []Cond {
 	for i := len(rev) - 1; i >= 0; i-- {
 		out = append(out, rev[i]...)
 	}
+	return fi.withHelperSuccess(out)
+}
+
+// withHelperSuccess adds, for every passed success test of a linked helper's
+// last result (`ok` true / `err` nil), the conditions under which the helper
+// reaches its one successful return.
+func (fi *FuncInfo) withHelperSuccess(cs []Cond) []Cond {
+	if fi.C == nil || len(fi.C.successRet) == 0 {
+		return cs
+	}
+	out := cs
+	for _, g := range cs {
+		var v *types.Var
+		if g.Kind == "bool" {
+			if x, isNil, ok := fi.nilTest(g); ok && isNil && isErrorType(fi.Info.TypeOf(x)) {
+				v = fi.varOf(x)
+			} else if !g.Neg {
+				v = fi.varOf(g.Expr)
+			}
+		}
+		if v == nil || g.At == nil {
+			continue
+		}
+		// the definition of v that reaches the test: the latest one before it
+		var best *defSite
+		for i := range fi.defs[v] {
+			d := &fi.defs[v][i]
+			if d.node != nil && d.node.Pos() < g.At.End() && (best == nil || d.node.Pos() > best.node.Pos()) {
+				best = d
+			}
+		}
+		if best == nil {
+			continue
+		}
+		call, ok := ast.Unparen(best.rhs).(*ast.CallExpr)
+		if !ok {
+			continue
+		}
+		S := fi.C.successRet[call]
+		h := fi.C.linked[call]
+		if S == nil || h == nil || best.idx != len(S.Results)-1 {
+			continue
+		}
+		out = append(out, h.GuardsWithin(S, h.Decl)...)
+	}
 	return out
 }
 
